@@ -53,6 +53,69 @@ def ast_edit(repo: Repo, relpath: str, fn: Callable[[ast.Module], Optional[bool]
     return {relpath: ast.unparse(tree)}
 
 
+def patch_overlay(repo: Repo, patch_path: str) -> dict[str, str]:
+    """The files of ``repo`` after applying a unified diff, as an overlay (nothing is written
+    under the repository: the touched files are copied to a scratch directory outside /repo and
+    /verif, patched there with ``patch -p1`` and read back; the directory is removed)."""
+    import re
+    import shutil
+    import subprocess
+    import tempfile
+
+    with open(patch_path, encoding="utf-8") as fd:
+        diff = fd.read()
+    touched = sorted(set(re.findall(r"^\+\+\+ b/(\S+)", diff, flags=re.M)) | set(re.findall(r"^--- a/(\S+)", diff, flags=re.M)))
+    touched = [t for t in touched if t != "/dev/null"]
+    tmp = tempfile.mkdtemp(prefix="verifpatch_", dir="/tmp")
+    try:
+        by_rel = {m.relpath: m for m in repo.modules.values()}
+        for rel in touched:
+            dst = os.path.join(tmp, rel)
+            os.makedirs(os.path.dirname(dst), exist_ok=True)
+            if rel in by_rel:
+                with open(dst, "w", encoding="utf-8") as out:
+                    out.write(by_rel[rel].source)
+        r = subprocess.run(["patch", "-p1", "-s", "-f", "-d", tmp, "-i", os.path.abspath(patch_path)], capture_output=True, text=True)
+        if r.returncode != 0:
+            raise Inapplicable(f"{os.path.basename(os.path.dirname(patch_path))}: patch does not apply to the tree under test ({(r.stdout + r.stderr).strip()[:80]})")
+        overlay = {}
+        for rel in touched:
+            dst = os.path.join(tmp, rel)
+            if os.path.exists(dst) and rel.endswith(".py"):
+                with open(dst, encoding="utf-8") as fd:
+                    overlay[rel] = fd.read()
+        return overlay
+    finally:
+        shutil.rmtree(tmp, ignore_errors=True)
+
+
+def recorded_variants(pid: str, repo: Repo) -> list:
+    """Variants from the committed records: every kept seeded change for this property must be
+    detected by it, and every behaviour-preserving patch of the benign rounds must leave it
+    silent (tools/seed_eval.py / tools/benign_eval.py wrote the records)."""
+    import glob
+    import json
+
+    here = os.path.dirname(os.path.dirname(os.path.abspath(__file__)))
+    out = []
+    for meta_path in sorted(glob.glob(os.path.join(here, "seeded", "*", "meta.json"))):
+        with open(meta_path, encoding="utf-8") as fd:
+            meta = json.load(fd)
+        if meta.get("property") != pid or not meta.get("confirmed", True):
+            continue
+        patch = os.path.join(os.path.dirname(meta_path), "patch.diff")
+        out.append(lambda patch=patch, meta=meta: Variant(f"seed:{meta['name']}", patch_overlay(repo, patch), ""))  # any new finding of this property
+    for meta_path in sorted(glob.glob(os.path.join(here, "benign", "*", "meta.json"))):
+        with open(meta_path, encoding="utf-8") as fd:
+            meta = json.load(fd)
+        for pf, rec in sorted(meta.get("patches", {}).items()):
+            if rec.get("usable") is False or rec.get("verdict") == "not-preserving":
+                continue
+            patch = os.path.join(os.path.dirname(meta_path), pf)
+            out.append(lambda patch=patch, meta=meta, pf=pf: Variant(f"benign:{meta['name']}/{pf}", patch_overlay(repo, patch), "", silent=True))
+    return out
+
+
 def find_func(tree: ast.Module, cls: Optional[str], name: str):
     body = tree.body
     if cls:
@@ -101,10 +164,10 @@ def run_selftest(pid: str, repo: Repo, base_res) -> dict:
     mod = _load_prop(pid)
     gen = getattr(mod, "selftest", None)
     if gen is None:
-        return {"variants": 0, "detected": 0, "missed": [], "note": "no self-test defined"}
+        gen = lambda _repo: []  # noqa: E731
     variants: list[Variant] = []
     inapplicable: list[str] = []
-    for make in gen(repo):
+    for make in list(gen(repo)) + recorded_variants(pid, repo):
         # each item is either a Variant or a zero-arg callable returning one
         try:
             v = make() if callable(make) else make
